@@ -387,10 +387,22 @@ main (int argc, char **argv)
           if (vh_mine (idx))
             vh_sample ("{\"setting\":%s,\"primary\":true,\"phrases\":\"36 boundary lengths x 4 fills, every length 0..511 x 2 fills, small scope, 8-bit specials\"}", vh_jstr (sets[si].s));
         }
+      else if (vh_thorough)
+        {
+          /* thorough: every boundary length x all 4 fills for every setting */
+          for (int li = 0; li < VH_NLB; li++)
+            for (int f = 0; f < 4; f++)
+              {
+                if (slow && (li % 2 || f % 2))
+                  continue;
+                if (vh_mine (idx++))
+                  case_lb (si, li, f);
+              }
+        }
       else
         for (unsigned q = 0; q < sizeof reduced / sizeof *reduced; q++)
           {
-            if (!vh_thorough && slow && q % 3)
+            if (slow && q % 3)
               continue;
             if (vh_mine (idx++))
               case_lb (si, reduced[q], (int) (q + (unsigned) si) % 4);
